@@ -153,9 +153,10 @@ def run(chk):
             except ValueError:
                 pass
     pre_env["supported_types"] = list(sup)
-    from ..pkgenv import bind_module_constants
+    from ..pkgenv import Package
 
-    bind_module_constants(repo.tree[FILE], pre_env)
+    for k_, v_ in Package(repo).env(FILE).items():
+        pre_env.setdefault(k_, v_)
 
     ints = [n.value for n in ast.walk(node_loop) if isinstance(n, ast.Constant) and isinstance(n.value, int) and not isinstance(n.value, bool)]
     K = max([2] + ints) + 1
